@@ -20,6 +20,8 @@ The reducer steps are `covers_bag`, `covers_unionR`, `covers_interR` (wildcard c
 import OpenFGAVerif.Proofs.ListUsersWild
 import OpenFGAVerif.Proofs.ListUsersStage1
 
+set_option linter.unusedSectionVars false
+
 namespace OpenFGAVerif.ListUsers
 open OpenFGAVerif.BoolSys
 
